@@ -13,7 +13,7 @@ import (
 func init() {
 	register(&Property{
 		ID: "C05",
-		Patterns: []string{".", "./internal/pdftree", "./pagetree", "./outline", "./nametree", "./numtree", "./page", "./graphics/content",
+		Patterns: []string{".", "./internal/pdftree", "./pagetree", "./outline", "./nametree", "./numtree", "./page", "./page/navnode", "./opaque", "./graphics/content",
 			"./font/cmap", "./font/glyphdata/type1glyphs", "./internal/limits", "./internal/filter/dct"},
 		Run: runC05,
 		Explanation: "Structural preconditions of 'opening and walking arbitrary bytes returns or errors': (R1) bounded reference following — every cycle of the (statically resolved + interface-dispatched) call graph that contains an object-fetching call passes through a function with a recognised guard (CycleCheck.step/Seen, a depth parameter compared with a bound, or a visited-set keyed by Reference), and the flag-based guards of the object reader hold on every path (scalar-only mode is set before an object is parsed, /Length is resolved only by scanners backed by a file, the length getter reads in scalar-only mode) — the unbounded recursion through an object-stream member with a self-referential /Length was found here and fixed; " +
@@ -34,6 +34,8 @@ func runC05(c *core.Ctx) {
 	ruleBudgetCharged(c)
 	ruleUncheckedAssertions(c)
 	ruleVisitedMonotone(c)
+	ruleNoObjStmFromObjStm(c)
+	ruleCyclePathCumulative(c)
 }
 
 // call graph -----------------------------------------------------------------
@@ -1539,4 +1541,153 @@ func ruleVisitedMonotone(c *core.Ctx) {
 	}
 	c.Floor(rule, 6)
 	_ = n
+}
+
+// ruleNoObjStmFromObjStm (C05-R10): reading an object stream must never open
+// another object stream: getFromObjStm -> getObjStm -> DecodeStream ->
+// GetFilters -> resolve -> Get -> getFromObjStm is a cycle that only the
+// canObjStm flag breaks (every resolve starts a fresh cycle-check path).  In
+// every function of package pdf that getObjStm can reach through static
+// calls, an argument for a parameter named canObjStm is the constant false or
+// the function's own canObjStm parameter.
+func ruleNoObjStmFromObjStm(c *core.Ctx) {
+	const rule = "C05-R10"
+	c.Check(rule, "pdf.getObjStm/reach", "no call reachable from getObjStm allows object streams (canObjStm is false, or is handed down unchanged)", func(o *core.Ob) {
+		pkg := c.Prog.Pkg("pdf")
+		byObj := map[*types.Func]*core.Func{}
+		for _, fn := range c.Prog.Funcs(pkg) {
+			byObj[fn.Obj] = fn
+		}
+		start := c.Prog.Func("pdf", "getObjStm")
+		reach := map[*core.Func]bool{start: true}
+		work := []*core.Func{start}
+		for len(work) > 0 {
+			fn := work[len(work)-1]
+			work = work[:len(work)-1]
+			for _, cs := range core.CallsIn(fn.Info(), fn.Decl, true) {
+				if cs.Fn == nil {
+					continue
+				}
+				if t := byObj[cs.Fn.Origin()]; t != nil && !reach[t] {
+					// do not walk through the Getter implementations themselves: the flag they receive is what is checked
+					if t.Key == "pdf.(*Reader).Get" || t.Key == "pdf.(*Reader).get" || t.Key == "pdf.(*Writer).Get" || t.Key == "pdf.(*Writer).get" || t.Key == "pdf.getFromObjStm" {
+						continue
+					}
+					reach[t] = true
+					work = append(work, t)
+				}
+			}
+		}
+		o.Fact("%d functions reachable from getObjStm", len(reach))
+		n := 0
+		for fn := range reach {
+			info := fn.Info()
+			var own types.Object
+			for _, fl := range fn.Decl.Type.Params.List {
+				for _, nm := range fl.Names {
+					if nm.Name == "canObjStm" {
+						own = info.Defs[nm]
+					}
+				}
+			}
+			for _, cs := range core.CallsIn(info, fn.Decl, true) {
+				if cs.Fn == nil {
+					continue
+				}
+				sig, ok := cs.Fn.Type().(*types.Signature)
+				if !ok {
+					continue
+				}
+				for i := 0; i < sig.Params().Len() && i < len(cs.Call.Args); i++ {
+					if sig.Params().At(i).Name() != "canObjStm" {
+						continue
+					}
+					n++
+					o.Count(1)
+					a := cs.Call.Args[i]
+					if cv := core.ConstOf(info, a); cv != nil && cv.String() == "false" {
+						continue
+					}
+					if own != nil && core.ObjOf(info, a) == own {
+						continue
+					}
+					o.FailAt(fn.Site(cs.Call, ""), "%s: %s is reachable from getObjStm and calls %s with canObjStm = %s: an object stream whose /Filter, /DecodeParms or /Length lives in an object stream recurses without bound", c.Prog.Pos(cs.Call.Pos()), fn.Key, cs.Key, c.Prog.Src(a))
+				}
+			}
+		}
+		o.Require(n >= 5, "only %d canObjStm arguments found on the path", n)
+	})
+}
+
+// ruleCyclePathCumulative (C05-R11): a CycleCheck path detects a loop only
+// if each step extends the path built so far.  Where a path element is
+// created inside a loop that follows references (a linked list of nodes),
+// its Parent must be the path carried by the loop (a variable assigned in
+// the loop), not a path fixed before the loop: with a fixed parent only
+// loops back to the head are seen and a loop among later nodes runs forever.
+func ruleCyclePathCumulative(c *core.Ctx) {
+	const rule = "C05-R11"
+	n := 0
+	for _, pkg := range c.Prog.RepoPkgs() {
+		for _, fn := range c.Prog.Funcs(pkg) {
+			fn := fn
+			info := fn.Info()
+			ast.Inspect(fn.Decl.Body, func(m ast.Node) bool {
+				var body *ast.BlockStmt
+				switch l := m.(type) {
+				case *ast.ForStmt:
+					body = l.Body
+				case *ast.RangeStmt:
+					body = l.Body
+				default:
+					return true
+				}
+				ast.Inspect(body, func(k ast.Node) bool {
+					cl, ok := k.(*ast.CompositeLit)
+					if !ok || !core.IsNamed(info.TypeOf(cl), "pdf", "CycleCheck") {
+						return true
+					}
+					var parent ast.Expr
+					for _, el := range cl.Elts {
+						if kv, ok := el.(*ast.KeyValueExpr); ok && core.ExprStr(kv.Key) == "Parent" {
+							parent = kv.Value
+						}
+					}
+					n++
+					key := fn.Key + "/path#" + itoa(n)
+					c.Check(rule, key, "a cycle-check path element created inside a loop extends the path carried by the loop", func(o *core.Ob) {
+						o.Count(1)
+						o.At(fn.Site(cl, "path element"))
+						if parent == nil {
+							o.Fail("%s: path element without parent inside a loop: every iteration starts a new path", c.Prog.Pos(cl.Pos()))
+							return
+						}
+						carried := false
+						ast.Inspect(parent, func(x ast.Node) bool {
+							id, ok := x.(*ast.Ident)
+							if !ok {
+								return true
+							}
+							obj := info.ObjectOf(id)
+							if obj == nil {
+								return true
+							}
+							for _, d := range core.AssignsTo(info, body, obj) {
+								if as, ok := d.(*ast.AssignStmt); ok && as.Tok == token.ASSIGN {
+									carried = true
+								}
+							}
+							return true
+						})
+						if !carried {
+							o.Fail("%s: the parent of the new path element (%s) is fixed before the loop: a reference loop that does not pass through the start is never detected", c.Prog.Pos(cl.Pos()), c.Prog.Src(parent))
+						}
+					})
+					return true
+				})
+				return false
+			})
+		}
+	}
+	c.Floor(rule, 1)
 }
